@@ -433,8 +433,16 @@ class BackwardScheduler(IScheduler):
         if _task.id in calculated:
             return
 
+        # the bound of a task comes from its own ancestors, not from whoever reached it first
+        min_date = self.__end
+        for anc in _task.all_parents:
+            for succ in anc.successors:
+                self.__backward_pass(succ, self.__end, resource_usage, calculated)
+                if succ.start is not None:
+                    min_date = min(min_date, succ.start)
+
         for pred in _task.successors:
-            self.__backward_pass(pred, min_date, resource_usage, calculated)
+            self.__backward_pass(pred, self.__end, resource_usage, calculated)
 
         min_successor_starts = min([t.start for t in _task.successors if t.start is not None] + [min_date])
 
